@@ -368,6 +368,10 @@ GRID = [
     # every row token refined into 9 / 7 physical rows: multi-block row-sets, key-range probes
     ({"block": 24, "rowset": 268435456, "checksum": True, "first_key": True}, True, 9),
     ({"block": 40, "rowset": 200, "checksum": False, "first_key": True}, True, 7),
+    # a row-set size budget between the size of one and of three small row-sets: the compactor merges the
+    # row-sets that fit and must leave the others alone (partial compaction)
+    ({"block": 24, "rowset": 120, "checksum": True, "first_key": True}, True, 1),
+    ({"block": 24, "rowset": 300, "checksum": True, "first_key": True}, False, 9),
 ]
 
 
@@ -408,7 +412,7 @@ def run_history_check(pid, args, views, stmts_q, stmts_t, boots, level_note, gri
     big = tier == "thorough"
     hists, gen = generate(pid, tier, seed, known_devs, stmts_t if big else stmts_q, boots, views,
                           4000 if big else 160, names)
-    cases, nontriv = replay_histories(v, pid, hists, seed, names, grid if big else grid[:1] + grid[2:3] + grid[4:5], pid)
+    cases, nontriv = replay_histories(v, pid, hists, seed, names, grid if big else grid[:1] + grid[2:3] + grid[4:5] + grid[6:7], pid)
     rc = v.finish()
     cov = {"states": sum(r["distinct"] for r in mc_runs),
            "transitions": sum(r["generated"] for r in mc_runs),
